@@ -58,7 +58,7 @@ def body(c):
                                                K.tla_opts(all=True, rev=True)]))
     # Exps without 0: ExpOf gives "no expiry" only through Min(Exps) = 2 for odd value ids; add 0 for a mix
     sim["Exps"] = "{0, 2, 3, 4}"
-    n = 450 if q else 2000
+    n = 300 if q else 2000
     sims = K.generate(c, "sim-expiry", sim, n, 34, c.seed, workers=8 if q else 12, timeout=1800)
     hist = K.op_histogram(sims)
     c.cov["generated_op_histogram"] = hist
@@ -73,15 +73,18 @@ def body(c):
             raise vlib.Inconclusive("generator produced no %s" % k)
     stats = {}
     confs = ["vlog", "default"] if q else ["default", "vlog", "thr+l3", "enc+vlog", "zstd+vlog", "inmem"]
-    for conf in confs:
-        K.replay(c, sims, conf, c.seed, "sim-expiry", keys=tab, collect=stats)
+    nrep = 0
+    for i, conf in enumerate(confs):
+        hs = sims if (i == 0 or not q) else sims[:len(sims) // 2]   # quick: second configuration on half of them
+        K.replay(c, hs, conf, c.seed, "sim-expiry", keys=tab, collect=stats)
+        nrep += len(hs)
     c.cov["observations_compared"] = {k: v for k, v in stats.items() if k.startswith(("scan", "get", "iter", "dump"))}
     c.cov["env_steps_executed"] = {k: stats.get(k, 0) for k in K.ENV_ALL}
     # expired newest versions across physical layouts, then a compaction into a level that still has
     # older versions below it (the expired version must keep hiding them)
     nlay = K.layout_stage(c, tab, c.seed, "layouts-expiry", q, parts=("compact",) if q else ("all", "compact"))
     good = [h for h, p in zip(sims, prof) if p[1] > 0]
-    c.add_cases(len(sims) * len(confs) + nlay, set(K.hist_key(h) for h in good), traces=len(sims) * len(confs) + nlay)
+    c.add_cases(nrep + nlay, set(K.hist_key(h) for h in good), traces=nrep + nlay)
     c.cov["rule"] = ("histories are behaviours of BadgerKVGen (TLC -simulate, length 34, shaped: expiring Sets and Tick steps "
                      "frequent); non-trivial = a read is issued while the newest committed version of some key is expired; distinct = "
                      "distinct step sequences")
